@@ -1,4 +1,4 @@
-// Scripted EngineBase for the C03 demonstrations: no sockets and no thread of
+// Scripted EngineBase for the replay: no sockets and no thread of
 // its own. deliver() / peerClose() play the part of the engine's I/O thread by
 // invoking the engine callbacks the way TcpEngine does (data chunks in arrival
 // order, then close). It is injected into the real iora::network::Transport
